@@ -53,12 +53,14 @@ func (p *c14bufProv) Close() error {
 }
 
 type c14bufCase struct {
-	batch   int
-	gatedDs bool
-	ops     []string
-	closeAt int
-	conc2   bool
-	strat   int
+	batch      int
+	gatedDs    bool
+	ops        []string
+	closeAt    int
+	closeOp1   int // >0: Close follows the start of operation closeOp1-1 by closeDelay steps
+	closeDelay int
+	conc2      bool
+	strat      int
 }
 
 func c14bufRun(r *vfRand, c *c14bufCase, tr *zzc14.Trace) (*zzc14.Plan, string) {
@@ -83,7 +85,7 @@ func c14bufRun(r *vfRand, c *c14bufCase, tr *zzc14.Trace) (*zzc14.Plan, string) 
 		return nil, "constructor panicked"
 	}
 	tr.Ctor(true)
-	plan := &zzc14.Plan{Gate: gate, UseWait: true, Close: s.Close, CloseAt: c.closeAt, Concurrent2: c.conc2, MaxSteps: 1500, Idle: 2 * time.Second, MaxIdle: 15,
+	plan := &zzc14.Plan{Gate: gate, UseWait: true, Close: s.Close, CloseAt: c.closeAt, CloseOp1: c.closeOp1, CloseDelay: c.closeDelay, Concurrent2: c.conc2, MaxSteps: 1500, Idle: 2 * time.Second, MaxIdle: 15,
 		Pick: zzc14.PickBy(c.strat, r.Intn)}
 	key := func() mh.Multihash {
 		buf := make([]byte, 8)
@@ -142,6 +144,9 @@ func c14bufGen(r *vfRand, i int) *c14bufCase {
 		c.closeAt = r.Intn(4 + 6*len(c.ops))
 	}
 	c.conc2 = r.Chance(35)
+	if len(c.ops) > 0 && r.Chance(55) {
+		c.closeOp1, c.closeDelay = 1+r.Intn(len(c.ops)), 1+r.Intn(4)
+	}
 	return c
 }
 
@@ -151,7 +156,7 @@ func TestVerifC14Buffered(t *testing.T) {
 	zzc14.StartClock()
 	seed := vfSeed()
 	n := vfEnvInt("VERIF_N", 60)
-	only := vfOnly()
+	only := zzc14.Only(7, vfOnly())
 	cs := vfNewCases("Run_C14", 50)
 	curDesc := map[string]any{}
 	zzc14.OnHang(func(label, stacks string) {
@@ -162,12 +167,12 @@ func TestVerifC14Buffered(t *testing.T) {
 	root := vfNewRand(seed)
 	for i := 0; i < n; i++ {
 		r := root.Fork()
-		if only >= 0 && i != only {
+		if only != -1 && i != only {
 			continue
 		}
 		c := c14bufGen(r, i)
-		desc := map[string]any{"case": i, "seed": seed, "pkg": "provider/buffered", "comp": "buffered", "batch": c.batch, "gatedDatastore": c.gatedDs, "ops": c.ops,
-			"closeAt": c.closeAt, "concurrent2": c.conc2, "strategy": c.strat}
+		desc := map[string]any{"case": zzc14.CaseID(7, i), "seed": seed, "pkg": "provider/buffered", "comp": "buffered", "batch": c.batch, "gatedDatastore": c.gatedDs, "ops": c.ops,
+			"closeAt": c.closeAt, "closeOp1": c.closeOp1, "closeDelay": c.closeDelay, "concurrent2": c.conc2, "strategy": c.strat}
 		curDesc = desc
 		tr := &zzc14.Trace{}
 		var plan *zzc14.Plan
